@@ -205,6 +205,9 @@ func PackCases(seed int64, nEnum int, tmpls []Tmpl) []*Case {
 			act(p.n(KSeq, lab("x", la()), p.n(KAnd, lab("x", lb())), lab("y", lb()))),
 			act(p.n(KSeq, lab("x", la()), p.n(KNot, p.n(KSeq, lab("y", lb()), p.lit("c", false))), lab("z", lb()))),
 			act(p.n(KSeq, lab("x", la()), p.n(KOpt, p.n(KSeq, lab("x", lb()), p.lit("c", false))), lab("y", p.n(KOpt, lb())))),
+			// a labeled expression is a scope of its own: the same name bound again directly inside it
+			act(p.n(KSeq, lab("x", la()), lab("y", p.n(KSeq, lab("x", lb()), p.n(KOpt, la()))))),
+			act(p.n(KSeq, lab("x", la()), lab("y", lab("x", lb())), lab("z", p.n(KOpt, la())))),
 		} {
 			name := fmt.Sprintf("Q%d", pi)
 			rules = append(rules, &Rule{Name: name, Expr: e})
